@@ -127,6 +127,13 @@ func (s *State) Reset() {
 	s.mu.Unlock()
 }
 
+// StmtCount is the number of statements prepared so far (the id of the latest one).
+func (s *State) StmtCount() int {
+	s.mu.Lock()
+	defer s.mu.Unlock()
+	return s.nextStmt
+}
+
 func (s *State) OpenStmts() int {
 	s.mu.Lock()
 	defer s.mu.Unlock()
